@@ -139,7 +139,8 @@ func (e *Engine) doCall(st *State, fr *Frame, dst *ssa.Call, cc *ssa.CallCommon,
 		}
 	}
 	// content-demanding foreign code: fork an atom argument over its concrete candidates
-	if !strings.HasPrefix(fnPkgPath(fn), "github.com/cloudflare/pint") && !atomTolerant[fnKey(fn)] {
+	// (log/slog calls are no-ops below and never look at their arguments)
+	if !strings.HasPrefix(fnPkgPath(fn), "github.com/cloudflare/pint") && !atomTolerant[fnKey(fn)] && !strings.HasPrefix(fnPkgPath(fn), "log/slog") {
 		for ai, a := range args {
 			sv, ok := a.(StringVal)
 			if !ok || sv.Atom == nil {
@@ -184,11 +185,15 @@ func (e *Engine) doCall(st *State, fr *Frame, dst *ssa.Call, cc *ssa.CallCommon,
 		if st.dead {
 			return nil
 		}
-		if fk, isFork := r.(ForkVal); isFork {
-			return e.applyFork(st, fk, setResult)
+		// an intrinsic may decline (DeclineVal): the call is then handled as if no intrinsic were registered
+		if _, declined := r.(DeclineVal); !declined {
+			if fk, isFork := r.(ForkVal); isFork {
+				return e.applyFork(st, fk, setResult)
+			}
+			setResult(st, r)
+			return nil
 		}
-		setResult(st, r)
-		return nil
+		e.Stubs[fnKey(fn)]--
 	}
 	if strings.HasPrefix(fnPkgPath(fn), "log/slog") {
 		e.Stubs["log/slog.*"]++
@@ -357,6 +362,10 @@ func (e *Engine) findCut(fn *ssa.Function) *ssa.Function {
 	}
 	return nil
 }
+
+// DeclineVal is returned by an intrinsic that does not apply to these arguments (e.g. a model for atoms called with a
+// symbolic-bytes string): the call falls through to the normal treatment (SSA execution of an executable package).
+type DeclineVal struct{}
 
 // ForkVal lets an intrinsic return several guarded alternatives.
 type ForkVal struct {
